@@ -22,6 +22,15 @@ func main() {
 		os.Exit(cmdCheck(os.Args[2:]))
 	case "list":
 		cmdList(os.Args[2:])
+	case "ssa":
+		P, err := vc.Load("/repo", "/verif/engine/externals")
+		if err != nil {
+			fmt.Fprintln(os.Stderr, err)
+			os.Exit(2)
+		}
+		for _, f := range P.FindFuncs(os.Args[2]) {
+			f.WriteTo(os.Stdout)
+		}
 	default:
 		fmt.Fprintln(os.Stderr, "unknown command", os.Args[1])
 		os.Exit(2)
